@@ -122,6 +122,37 @@ def _impl(tier, seed, search):
             except Exception: pass
             L.count('ctor-alias'); 
             if snap(arr) != before: L.fail(f'alias:{cname}(array)', f'item assignment on {cname}(array) wrote into the array passed to the constructor', dict(cls=cname))
+    # constructors with check=False and later documented mutation of the object: the caller's list / arrays stay untouched
+    for cname, cls, mk in (('SO3', SO3, lambda: inputs.so3(g)), ('SE3', SE3, lambda: inputs.se3(g, 1)), ('SO2', SO2, lambda: inputs.so2(g)), ('SE2', SE2, lambda: inputs.se2(g, 1)),
+                           ('Quaternion', Quaternion, lambda: g.normal(size=4)), ('Twist3', Twist3, lambda: g.normal(size=6)), ('Twist2', Twist2, lambda: g.normal(size=3))):
+        for kw in (dict(check=False), dict()):
+            lst = [mk(), mk()]
+            before = snap(lst)
+            L.count('ctor-then-mutate', key=(cname, bool(kw)))
+            try:
+                X = cls(lst, **kw)
+                X.append(cls(mk())); X.reverse(); X.insert(0, cls(mk())); X[1] = cls(mk()); X.pop()
+            except Exception: pass
+            if snap(lst) != before:
+                L.fail(f'alias:{cname}(list)', f'list operations on {cname}(list{", check=False" if kw else ""}) changed the list passed to the constructor', dict(cls=cname, kwargs=str(kw)))
+    # display: repr / str of an object must not change it or the array it was built from (values below the print threshold included)
+    Tt = b.trotx(math.pi / 2) @ b.transl(1e-15, 2, 3); Rt = b.rotx(math.pi / 2)
+    for nm_, arr_, mkobj in (('SE3', Tt, lambda a_: SE3(a_)), ('SO3', Rt, lambda a_: SO3(a_)), ('SE3(check=False)', Tt.copy(), lambda a_: SE3(a_, check=False)),
+                             ('Twist3', np.array([1.0, 2, 3, 1e-15, 0, 1]), lambda a_: Twist3(a_)), ('Quaternion', np.array([1.0, 1e-15, 0, 0]), lambda a_: Quaternion(a_))):
+        Xd = mkobj(arr_)
+        for fn_, f_ in (('repr', repr), ('str', str)):
+            observe('display', f'{fn_}({nm_})', lambda o_, a_: f_(o_), [Xd, arr_], sig=f'mutates:{fn_}')
+    # 2-D array arguments of the homogeneous-coordinate helpers and the N x 4 quaternion constructors
+    P4 = g.normal(size=(4, 5)); P4[3, :] = g.uniform(0.5, 2.0, size=5); P3 = g.normal(size=(3, 5)); Q4n = g.normal(size=(3, 4)) * 3.0
+    for nm_, f_, a_ in (('h2e(4xN)', b.h2e, P4), ('e2h(3xN)', b.e2h, P3), ('homtrans(T,3xN)', lambda p_: b.homtrans(T, p_), P3), ('h2e(4)', b.h2e, P4[:, 0].copy()),
+                        ('UnitQuaternion(Nx4)', lambda q_: UnitQuaternion(q_), Q4n), ('Quaternion(Nx4)', lambda q_: Quaternion(q_), Q4n.copy()),
+                        ('UnitQuaternion(Nx4,norm=False)', lambda q_: UnitQuaternion(q_, norm=False, check=False), Q4n.copy()),
+                        ('trnorm(T)', b.trnorm, T + 1e-9 * g.normal(size=(4, 4)) * np.r_[1, 1, 1, 0].reshape(4, 1)), ('trnorm(R)', b.trnorm, R + 1e-9 * g.normal(size=(3, 3))),
+                        ('removesmall', b.removesmall, np.array([1.0, 1e-15, -3e-16, 2.0])), ('vex', b.vex, b.skew(v3) + 1e-9), ('vexa', b.vexa, b.skewa(v6) + 0.0),
+                        ('tr2rpy(T)', b.tr2rpy, T.copy()), ('tr2eul(T)', b.tr2eul, T.copy()), ('tr2angvec(T)', b.tr2angvec, T.copy()), ('trlog(T)', lambda t_: b.trlog(t_, check=False), T.copy()),
+                        ('trinv', b.trinv, T.copy()), ('tr2delta', b.tr2delta, T.copy()), ('trinterp(None,T,s)', lambda t_: b.trinterp(None, t_, 0.3), T.copy()), ('trinterp(T,T,s)', lambda t_: b.trinterp(np.eye(4), t_, 0.3), T.copy())):
+        for rep_ in range(2):       # twice: a second call must see the same argument
+            observe('array-args', nm_, f_, [a_], sig=f'mutates:{nm_.split("(")[0]}')
     # ---- 3. reflection: attributes and zero-argument methods on receivers ------------------------------------------
     def instances():
         yield 'SO2', SO2(inputs.so2(g)); yield 'SO2[3]', SO2([inputs.so2(g) for _ in range(3)])
